@@ -28,12 +28,13 @@ def inter (a b : List Nat) : List Nat := a.filter fun x => b.contains x
 
 /-! ## RFC 6492 -/
 
-/-- `provisioning::Payload`. -/
+/-- `provisioning::Payload`.  A list response names, per class, the entitlement and the
+certificates (key, resources) the child currently holds there. -/
 inductive Payload
   | list
   | issue (cls : String) (key : Key) (limit : List Nat) (csrOk : Bool)
   | revoke (cls : String) (key : Key)
-  | listResponse (classes : List (String × List Nat × List Key))
+  | listResponse (classes : List (String × List Nat × List (Key × List Nat)))
   | issueResponse (cls : String) (key : Key) (resources : List Nat)
   | revokeResponse (cls : String) (key : Key)
   | errorResponse (code : Nat)
@@ -64,6 +65,27 @@ structure ChildRec where
   revoked   : List Key := []
   deriving DecidableEq, Repr
 
+/-- An issued child certificate (`IssuedCertificate`, kept in the class's `ChildCertificates::issued`):
+key, class, the child it was issued to, its resources, the `RequestResourceLimit` it was asked with
+(`[]` = none). -/
+abbrev Cert := Key × String × Handle × List Nat × List Nat
+
+/- (the instance term for a list of five-tuples is larger than the default search bound) -/
+set_option synthInstance.maxSize 1024 in
+instance instDecidableEqListCert : DecidableEq (List Cert) := inferInstance
+
+/-- A suspended child certificate (`SuspendedCert` in `ChildCertificates::suspended`): as `Cert`,
+plus `expiring` – the outcome of the test `not_after ≤ now + 1 day` that `process_child_unsuspend`
+makes (the clock is an input of the model). -/
+structure SuspCert where
+  key      : Key
+  cls      : String
+  child    : Handle
+  res      : List Nat
+  limit    : List Nat := []
+  expiring : Bool := false
+  deriving DecidableEq, Repr
+
 /-- `CertAuth`, as a parent. -/
 structure Ca where
   handle   : Handle
@@ -71,8 +93,12 @@ structure Ca where
   children : List (Handle × ChildRec) := []
   /-- resource classes that have a current key, with the resources of its certificate -/
   classes  : List (String × List Nat) := []
-  /-- certificates issued to children: key ↦ (class, child, resources) -/
-  certs    : List (Key × String × Handle × List Nat) := []
+  /-- certificates issued to children: key ↦ (class, child, resources, limit) -/
+  certs    : List Cert := []
+  /-- certificates of suspended children, withdrawn but kept (a key of a class is in at most one of
+  `certs` / `suspendedCerts` in every state krill reaches: `add_issued_certificate` and
+  `suspend_certificate` move it) -/
+  suspendedCerts : List SuspCert := []
   deriving DecidableEq, Repr
 
 inductive Refusal
@@ -93,33 +119,65 @@ inductive Out (μ : Type)
   | replied (m : Signed μ)
   deriving DecidableEq, Repr
 
-/-- `CertAuth::list` (certauth.rs:942): the child's entitlement in every class it shares resources
-with, and the certificates issued *to that child* in it. -/
-def entitlements (ca : Ca) (child : Handle) (c : ChildRec) : List (String × List Nat × List Key) :=
+/-- `CertAuth::list` / `entitlement_class` (certauth.rs:958-1100): the child's entitlement in every
+class it shares resources with, and the certificates – with the resources they carry – issued
+*to that child* for the keys it has in use in that class. -/
+def entitlements (ca : Ca) (child : Handle) (c : ChildRec) :
+    List (String × List Nat × List (Key × List Nat)) :=
   (ca.classes.filter fun cl => !(inter c.resources cl.2).isEmpty).map fun cl =>
     (cl.1, inter c.resources cl.2,
-      (c.inUse.filter fun ku => ku.2 == cl.1 &&
-        ca.certs.any fun ce => ce.1 == ku.1 && ce.2.2.1 == child).map (·.1))
+      (c.inUse.filter fun ku => ku.2 == cl.1).filterMap fun ku =>
+        (ca.certs.find? fun ce => ce.1 == ku.1 && ce.2.1 == cl.1 && ce.2.2.1 == child).map
+          fun ce => (ku.1, ce.2.2.2.1))
 
-def removeKey (l : List (Key × String × Handle × List Nat)) (k : Key) :=
+/-- `IssuedCertificate::to_rfc6492_issued_cert` → `to_cert` (certauth.rs:1068-1081): a stored certificate
+without resources cannot be parsed back (rpki-rs: "both AS and IP resources extensions are
+missing"), and then the whole list / issuance response fails with an error. -/
+def listable (e : String × List Nat × List (Key × List Nat)) : Bool :=
+  e.2.2.all fun kc => !kc.2.isEmpty
+
+def removeKey (l : List Cert) (k : Key) : List Cert :=
   l.filter fun ce => ce.1 != k
+
+/-- The slot of key `k` in the suspended certificates of class `cls` is emptied
+(`ChildCertificates::add_issued_certificate`, `remove_revoked_key`). -/
+def removeSusp (l : List SuspCert) (k : Key) (cls : String) : List SuspCert :=
+  l.filter fun s => !(s.key == k && s.cls == cls)
+
+/-- `ResourceClass::issue_cert` + `SignSupport::make_issued_cert` (rc.rs:665-687,
+signing/misc.rs:122-133): the resources of the certificate are the class's resources ∩ the
+resources asked for (`child_resources`: the entitlement for a request, the old certificate's
+resources for a re-issue); a limit replaces them and must be inside them
+(`RequestResourceLimit::apply_to` fails otherwise).  The result is inside the class by
+construction, so the `MissingResources` test never fires; **an empty result is not refused**. -/
+def issueRes (classRes asked limit : List Nat) : Option (List Nat) :=
+  let r := inter asked classRes
+  if limit.isEmpty then some r
+  else if subset limit r then some limit else none
 
 /-- `rfc6492_process_request` after the unsuspend step (manager.rs:1086-1101, `ChildCertify`,
 `ChildRevokeKey`): everything is done for `child` – the sender of the validated message. -/
 def dispatch (ca : Ca) (child : Handle) (c : ChildRec) : Payload → Ca × Option Payload
-  | .list => (ca, some (.listResponse (entitlements ca child c)))
+  | .list =>
+    let es := entitlements ca child c
+    (ca, if es.all listable then some (.listResponse es) else none)
   | .issue cls key limit csrOk =>
     match lookup ca.classes cls with
     | none => (ca, none)
     | some res =>
-      let grant := inter c.resources res
-      if !csrOk || grant.isEmpty || !(subset limit grant) then (ca, none)
-      else
-        let grant := if limit.isEmpty then grant else limit
-        let c' := { c with inUse := (key, cls) :: c.inUse.filter (·.1 != key) }
-        ({ ca with children := update ca.children child (fun _ => c'),
-                   certs := (key, cls, child, grant) :: removeKey ca.certs key },
-         some (.issueResponse cls key grant))
+      match (if csrOk then issueRes res c.resources limit else none) with
+      | none => (ca, none)
+      | some grant =>
+        let c' := { c with inUse := (key, cls) :: c.inUse.filter (·.1 != key),
+                           revoked := c.revoked.filter (· != key) }
+        let ca' := { ca with children := update ca.children child (fun _ => c'),
+                             certs := (key, cls, child, grant, limit) :: removeKey ca.certs key,
+                             suspendedCerts := removeSusp ca.suspendedCerts key cls }
+        -- `issuance_response` → `entitlement_class` on the new state: no entitlement in this class ⇒
+        -- `KeyUseNoIssuedCert`, *after* the (empty) certificate was issued and stored
+        (ca', match (entitlements ca' child c').find? (·.1 == cls) with
+              | some e => if listable e then some (.issueResponse cls key grant) else none
+              | none => none)
   | .revoke cls key =>
     match lookup ca.classes cls with
     | none => (ca, some (.revokeResponse cls key))   -- unknown class: confirmed, nothing done
@@ -127,10 +185,82 @@ def dispatch (ca : Ca) (child : Handle) (c : ChildRec) : Payload → Ca × Optio
       if c.inUse.any (·.1 == key) then
         let c' := { c with inUse := c.inUse.filter (·.1 != key), revoked := key :: c.revoked }
         ({ ca with children := update ca.children child (fun _ => c'),
-                   certs := removeKey ca.certs key },
+                   certs := removeKey ca.certs key,
+                   suspendedCerts := removeSusp ca.suspendedCerts key cls },
          some (.revokeResponse cls key))
       else (ca, none)
   | _ => (ca, none)
+
+/-! ### Suspension (`ChildSuspendInactive`) and the automatic un-suspension (`ChildUnsuspend`) -/
+
+/-- `rc.suspended(&key)`: the suspended certificate in the slot of `k` in class `cls`. -/
+def suspFor (ca : Ca) (cls : String) (k : Key) : Option SuspCert :=
+  ca.suspendedCerts.find? fun s => s.key == k && s.cls == cls
+
+/-- What `process_child_unsuspend` (certauth.rs:1607-1675) decides for one key the child has in use. -/
+inductive Fate
+  /-- class gone, or no suspended certificate in the slot: nothing is done -/
+  | keep
+  /-- re-issued: a new certificate with these resources and the old limit -/
+  | reissue (res limit : List Nat)
+  /-- `cert_updates.removed`: the certificate is dropped, the key marked revoked -/
+  | drop
+  /-- `append_child_certify` fails: the whole command, and with it the request, fails -/
+  | fail
+  deriving DecidableEq, Repr
+
+/-- The loop body: a suspended certificate that is not about to expire and whose resources are inside the
+child's *current* entitlement (`child.resources.contains(&suspended.resources)`) is re-issued for the
+same CSR, resources and limit through `append_child_certify` → `issue_cert` (which intersects with
+the class); every other one is removed. -/
+def fate (ca : Ca) (c : ChildRec) (ku : Key × String) : Fate :=
+  match lookup ca.classes ku.2 with
+  | none => .keep
+  | some classRes =>
+    match suspFor ca ku.2 ku.1 with
+    | none => .keep
+    | some s =>
+      if !s.expiring && subset s.res c.resources then
+        match issueRes classRes s.res s.limit with
+        | some g => .reissue g s.limit
+        | none => .fail
+      else .drop
+
+def Fate.isFail : Fate → Bool | .fail => true | _ => false
+def Fate.isDrop : Fate → Bool | .drop => true | _ => false
+def Fate.cert? (child : Handle) (ku : Key × String) : Fate → Option Cert
+  | .reissue g l => some (ku.1, ku.2, child, g, l)
+  | _ => none
+
+/-- `ChildUnsuspend` for `child` with record `c` (command + `apply`): `none` when a re-issue fails
+(nothing is stored, the child stays suspended).  Otherwise the re-issued certificates are added
+(`apply_added_issued_certificate`), every slot that was looked at is emptied in the suspended
+certificates, the removed keys become `UsedKeyState::Revoked` in the child's record
+(certauth.rs:417-433 – for every child that has the key in use, which under the assumption that
+children do not share keys is this child), and the child is active again. -/
+def unsuspend (ca : Ca) (child : Handle) (c : ChildRec) : Option (Ca × ChildRec) :=
+  if c.inUse.any (fun ku => (fate ca c ku).isFail) then none
+  else
+    let c' : ChildRec :=
+      { c with suspended := false,
+               inUse := c.inUse.filter (fun ku => !(fate ca c ku).isDrop),
+               revoked := (c.inUse.filter (fun ku => (fate ca c ku).isDrop)).map (·.1) ++ c.revoked }
+    some ({ ca with
+        children := update ca.children child (fun _ => c'),
+        certs := c.inUse.filterMap (fun ku => (fate ca c ku).cert? child ku) ++ ca.certs,
+        suspendedCerts := ca.suspendedCerts.filter fun s =>
+          !(c.inUse.any fun ku => ku.1 == s.key && ku.2 == s.cls && (lookup ca.classes ku.2).isSome) },
+      c')
+
+/-- `rfc6492_process_request` (manager.rs:1048-1123) for the validated sender: a suspended child
+shows signs of life – it is unsuspended first (`ca_child_update(…, unsuspend)`; an error there is
+the outcome of the request) – then the request is dispatched on the resulting state. -/
+def processRequest (ca : Ca) (child : Handle) (c : ChildRec) (pl : Payload) : Ca × Option Payload :=
+  if c.suspended then
+    match unsuspend ca child c with
+    | none => (ca, none)
+    | some (ca1, c1) => dispatch ca1 child c1 pl
+  else dispatch ca child c pl
 
 /-- `CaManager::rfc6492` (manager.rs:997-1045). -/
 def rfc6492 {Bytes : Type} (decode : Bytes → Option (Signed Msg)) (ca : Ca) (bytes : Bytes) :
@@ -144,15 +274,38 @@ def rfc6492 {Bytes : Type} (decode : Bytes → Option (Signed Msg)) (ca : Ca) (b
     | some c =>
       if !(sg.signer == c.idKey && sg.fresh) then (ca, .refused .badSignature)
       else
-        -- the child shows signs of life: unsuspend it first
-        let c1 := { c with suspended := false }
-        let ca1 := if c.suspended then
-            { ca with children := update ca.children sg.body.sender (fun _ => c1) } else ca
-        match dispatch ca1 sg.body.sender c1 sg.body.payload with
+        match processRequest ca sg.body.sender c sg.body.payload with
         | (ca2, none) => (ca2, .refused .processing)
         | (ca2, some p) =>
           (ca2, .replied { signer := ca.idKey,
                            body := { sender := ca.handle, recipient := sg.body.sender, payload := p } })
+
+/-- `ca_child_update` with `suspend = true` → `process_child_suspend_inactive` (certauth.rs:1540-1589):
+the certificates in the slots of the keys the child has in use move from issued to suspended, the
+child is marked suspended – unless it is suspended already or has no key in use in any class (then
+nothing happens).  `expiring k` = what the clock will say about the certificate of `k` when the
+child comes back. -/
+def Ca.suspendChild (ca : Ca) (child : Handle) (expiring : Key → Bool) : Ca :=
+  match lookup ca.children child with
+  | none => ca
+  | some c =>
+    if c.suspended then ca
+    else
+      let slots := c.inUse.filter fun ku => (lookup ca.classes ku.2).isSome
+      if slots.isEmpty then ca
+      else
+        let mine (ce : Cert) : Bool := slots.any fun ku => ku.1 == ce.1 && ku.2 == ce.2.1
+        { ca with
+          children := update ca.children child (fun c => { c with suspended := true }),
+          certs := ca.certs.filter fun ce => !(mine ce),
+          suspendedCerts := ((ca.certs.filter mine).map fun ce =>
+              ({ key := ce.1, cls := ce.2.1, child := ce.2.2.1, res := ce.2.2.2.1, limit := ce.2.2.2.2,
+                 expiring := expiring ce.1 } : SuspCert)) ++ ca.suspendedCerts }
+
+/-- `ca_child_update` with new resources (`ChildUpdatedResources`): only the entitlement changes;
+certificates are not touched. -/
+def Ca.updateChildResources (ca : Ca) (child : Handle) (res : List Nat) : Ca :=
+  { ca with children := update ca.children child (fun c => { c with resources := res }) }
 
 /-- `ca_child_update` with a new ID certificate (`ChildUpdatedIdCert`). -/
 def Ca.updateChildId (ca : Ca) (child : Handle) (k : Key) : Ca :=
